@@ -76,4 +76,50 @@ def unflattenC : List α → List Nat → List (List (Item α)) → Option (List
     | some x => (unflattenC (flat.drop s) ss refs).map (fun t => x :: t)
   | _, _, _ => some []
 
+/-! ### the Coupler object through a history of resizes
+
+`_sizeRef` is an attribute of the Coupler: EVERY `flattenX` call overwrites it (GenericModel.py 385),
+`unflattenX` slices with whatever was recorded last (398).  DESolver.solve re-reads the reference
+state `X0` in every iteration "since the shape of X0 can change during postProcess" (Solver.py
+208-214): the sub-models may return a state of another length from `postProcess` (adaptive bins of
+the population balance), so over a run the Coupler sees a HISTORY of differently sized states. -/
+
+/-- the Coupler as far as flattening is concerned: the sizes recorded by the latest `flattenX`
+(`none`: no `flattenX` call yet, the attribute does not exist) -/
+structure Coupler where
+  sizeRef : Option (List Nat)
+  deriving Repr, DecidableEq
+
+def Coupler.new : Coupler := { sizeRef := none }
+
+/-- Coupler.flattenX: returns the flat vector, records the sizes -/
+def Coupler.flattenX (_c : Coupler) (Xs : List (List (Item α))) : List α × Coupler :=
+  ((flattenC Xs).1, { sizeRef := some (flattenC Xs).2 })
+
+/-- Coupler.unflattenX: slices with the sizes recorded last (AttributeError before any flattenX) -/
+def Coupler.unflattenX (c : Coupler) (flat : List α) (refs : List (List (Item α))) :
+    Option (List (List (Item α))) :=
+  match c.sizeRef with
+  | none => none
+  | some ss => unflattenC flat ss refs
+
+/-- one solver iteration as far as the layout is concerned: the state the models supplied is
+flattened (sizes recorded) and the flat vector is handed back to the callbacks unflattened by that
+same state (`self._X0`) -/
+def Coupler.deliver (c : Coupler) (Xs : List (List (Item α))) :
+    Option (List (List (Item α))) × Coupler :=
+  let r := c.flattenX Xs
+  (r.2.unflattenX r.1 Xs, r.2)
+
+/-- a run: the history of states the models supplied (initial state, then what each `postProcess`
+returned, each possibly of other sizes than the one before) ↦ what the callbacks received -/
+def Coupler.deliverAll (c : Coupler) : List (List (List (Item α))) → List (Option (List (List (Item α))))
+  | [] => []
+  | Xs :: rest => (c.deliver Xs).1 :: Coupler.deliverAll (c.deliver Xs).2 rest
+
+/-- the sizes on record after the models supplied the states of a history one after the other -/
+def Coupler.afterHistory (c : Coupler) : List (List (List (Item α))) → Coupler
+  | [] => c
+  | Xs :: rest => Coupler.afterHistory (c.flattenX Xs).2 rest
+
 end KawinV.Flatten
